@@ -1,4 +1,4 @@
-import Nv.Model.C08
+import Nv.Props.C08
 import Nv.Gen.C08
 /-! C08 — obligations on the definitions regenerated from /repo's current source. -/
 namespace Nv.C08
@@ -14,5 +14,26 @@ theorem tie_setI32_sel (i : BitVec 32) : setI32_sel i = selI32 i := rfl
 theorem tie_unsetI32_sel (i : BitVec 32) : unsetI32_sel i = selI32 i := rfl
 theorem tie_setI16_sel (i : BitVec 16) : setI16_sel i = selI16 i := rfl
 theorem tie_unsetI16_sel (i : BitVec 16) : unsetI16_sel i = selI16 i := rfl
+
+/-! the property theorems about set/unset, stated directly on the regenerated kernels -/
+
+/-- regenerated `Bit64.Set`: bit `i` joins iff `i ≤ 63`, nothing else changes -/
+theorem tie_set64_spec (i : BitVec 8) (b : BitVec 64) (j : Nat) :
+    (bit64_set i b).getLsbD j = (b.getLsbD j || (decide (i.toNat ≤ 63) && decide (i.toNat = j))) := set64_spec b i j
+
+theorem tie_unset64_spec (i : BitVec 8) (b : BitVec 64) (j : Nat) :
+    (bit64_unset i b).getLsbD j = (b.getLsbD j && !(decide (i.toNat ≤ 63) && decide (i.toNat = j))) := unset64_spec b i j
+
+/-- regenerated index arithmetic of `SetI32`: in range ⇒ (word i/64, bit i%64); otherwise the guard fails or the
+    byte handed to `Bit64.Set` exceeds 63 -/
+theorem tie_setI32_sel_spec (i : BitVec 32) :
+    (0 ≤ i.toInt ∧ i.toInt < 1024 →
+      (setI32_sel i).1 = true ∧ (setI32_sel i).2.1.toNat = i.toInt.toNat / 64 ∧ (setI32_sel i).2.2.toNat = i.toInt.toNat % 64) ∧
+    (¬(0 ≤ i.toInt ∧ i.toInt < 1024) → (setI32_sel i).1 = false ∨ 63 < (setI32_sel i).2.2.toNat) := selI32_spec i
+
+theorem tie_setI16_sel_spec (i : BitVec 16) :
+    (0 ≤ i.toInt ∧ i.toInt < 1024 →
+      (setI16_sel i).1 = true ∧ (setI16_sel i).2.1.toNat = i.toInt.toNat / 64 ∧ (setI16_sel i).2.2.toNat = i.toInt.toNat % 64) ∧
+    (¬(0 ≤ i.toInt ∧ i.toInt < 1024) → (setI16_sel i).1 = false ∨ 63 < (setI16_sel i).2.2.toNat) := selI16_spec i
 
 end Nv.C08
